@@ -22,6 +22,7 @@ func TestVerifC18(t *testing.T) {
 	if err := setupKeys(); err != nil {
 		t.Fatalf("cannot generate RSA keys: %v", err)
 	}
+	defer closeWenv()
 	defer func() {
 		if len(rsaKeys) > 0 {
 			os.RemoveAll(filepath.Dir(rsaKeys[0].File))
@@ -38,6 +39,9 @@ func TestVerifC18(t *testing.T) {
 	kit.Run(t, "C18", "cs-mutations", kit.N(100, 2000), csMutationCase)
 	// ---- strict content security: several gates with different key sets in one process, every key to every gate
 	kit.Run(t, "C18", "cs-gates", kit.N(12, 240), csGatesCase)
+	// ---- strict content security: correctly signed requests whose TIMESTAMP is unusual (powers of two, offsets whose
+	// product with 1e9 / 1e6 / 1e3 wraps, integer limits, tolerance edges, spellings) against tolerances 0 .. 292 years
+	kit.Run(t, "C18", "cs-time", kit.N(1, 8)*csTimeCasesPerRound(), csTimeCase)
 	// ---- non-strict content security: observed only
 	kit.Run(t, "C18", "cs-nonstrict", kit.N(12, 200), csNonStrictCase)
 	// ---- encryption handler: every payload size 0..4096 (exhaustive in both tiers)
@@ -52,6 +56,9 @@ func TestVerifC18(t *testing.T) {
 		cryptionSizesCase(c, lo, hi)
 	})
 	kit.Run(t, "C18", "cryption-misc", kit.N(150, 2500), cryptionMiscCase)
+	// ---- encryption: every writing style of the handler x what sits underneath the encrypting writer (recorder,
+	// bare net/http server, rest.Server with default / no / custom middlewares) x payload sizes 0 .. 1 MiB
+	kit.Run(t, "C18", "cryption-writers", kit.N(1, 12)*len(cwKinds), cryptionWritersCase)
 	// ---- end to end through rest.Server
 	kit.Run(t, "C18", "e2e", kit.N(4, 24), e2eCase)
 	// ---- end to end: several signature / JWT route groups with different keys / secrets on one server, time travel
